@@ -154,9 +154,23 @@ impl BaseStream {
 
                 let (tx, rx) = mpsc::channel();
                 thread::spawn(move || {
-                    let shutdown = match deadline.checked_duration_since(Instant::now()) {
-                        Some(timeout) => rx.recv_timeout(timeout) == Err(mpsc::RecvTimeoutError::Timeout),
-                        None => rx.try_recv() == Err(mpsc::TryRecvError::Empty),
+                    // The reader pings this channel when it sees a 0 read, only to find out whether
+                    // the deadline has struck (the receiver is dropped before the socket is shut down).
+                    // A ping is therefore not a reason to stop watching: keep waiting until the deadline
+                    // expires or the stream, and with it the sender, is dropped.
+                    let shutdown = loop {
+                        match deadline.checked_duration_since(Instant::now()) {
+                            Some(timeout) => match rx.recv_timeout(timeout) {
+                                Ok(()) => continue,
+                                Err(mpsc::RecvTimeoutError::Timeout) => break true,
+                                Err(mpsc::RecvTimeoutError::Disconnected) => break false,
+                            },
+                            None => match rx.try_recv() {
+                                Ok(()) => continue,
+                                Err(mpsc::TryRecvError::Empty) => break true,
+                                Err(mpsc::TryRecvError::Disconnected) => break false,
+                            },
+                        }
                     };
 
                     if shutdown {
